@@ -16,6 +16,7 @@ Check(i) == LET o == Obs[i] IN
        THEN PrintT(ToJson(<<"VIOL", P(o), "SaveLoadIsLossless", o.k, Append(SigOf(o), Class(o))>>)) ELSE TRUE)
    /\ Chk(o.t = "doc" => UncertaintyTyped(o), P(o), "UncertaintyKeepsItsType", o)
    /\ Chk(o.t = "foreign" => SameDoc(o), P(o), "ForeignFileLoadsToItsDocument", o)
+   /\ Chk(o.t = "unrep" => ((o.out = "raised" /\ o.stage = "write") \/ SameDoc(o)), "C01", "UnrepresentableDocumentIsRefusedNotAltered", o)
    /\ Chk((o.t = "doc" /\ o.fmt = "XML" /\ o.out = "ok") => XmlVocabOK(o), "C01", "Only1.1VocabularyAndVersion", o)
    /\ Chk((o.t = "doc" /\ o.fmt = "XML" /\ o.mode = "strict" /\ o.out = "ok") => o.warnings = 0, "C01", "StrictReaderAcceptsWithoutWarning", o)
    /\ Chk((o.t = "doc" /\ o.fmt # "XML" /\ o.out = "ok") => DictVocabOK(o), "C02", "DictionaryLayout1.1", o)
